@@ -308,6 +308,33 @@ CLAIMED.update(
     }
 )
 
+CLAIMED.update(
+    {
+        "C25": (
+            "abstract interpretation of is_subtype / is_maybe_subtype / subtype_distance and their visitor classes (instantiated and dispatched by the checker's evaluator) over a finite type universe on a model class graph; algebraic laws checked on the resulting relation matrices; shape rules on the Any test and the visitor overrides",
+            "Decides the subtyping laws on a finite universe: the three queries and the visitor classes they construct are interpreted from source over 33 proper types (plain instances "
+            "over a diamond hierarchy, an unrelated class and the numeric tower; hard-coded generics; tuples of arity 1-3; unions with instance, None and tuple members; Any; None) and a "
+            "model type graph, giving 3 x 1089 answers. Checked on them: reflexivity, transitivity of all closing chains without Any, everything below Any, union subtype iff all members "
+            "(maybe: some member), instance subsumption == subclass relation of the model, strict implies maybe, a distance is defined only towards a maybe-subtype, distance 0 to itself. "
+            "Findings are grouped by law and type-shape signature; the two signatures that fail on the unchanged tree and are pinned by the existing tests are listed as known findings. "
+            "Shape: Any is tested first; the maybe visitor differs from the strict one only in the union arm (any vs all). Uniformity across types of the same shape is assumed.",
+            "Trusts sa/engine/peval.py (class instantiation, method dispatch, isinstance on representatives) and the model graph of sa/checks/_typemodel.py.",
+            "DESIGN.md §3 C25",
+        ),
+        "C26": (
+            "the same interpreted relation matrices compared between the two generator providers (offer predicates extracted from their source), plus cache-coherence shape rules: who-clears-what set equality on lru_cache'd methods, must-pass of invalidation after graph / generator writes",
+            "Decides on the finite type universe that every (requested, generated) pair the rank-based provider offers (subtype_distance defined) and the random provider offers "
+            "(is_maybe_subtype) is a maybe-subtype pair and that the two providers offer the same pairs, with the offer predicates and their argument order read from the providers' "
+            "source; the disagreements present on the unchanged tree (primitive requests, tuple/None requests vs Any, covariant generics) are listed as known findings by shape signature, "
+            "any other signature is reported. Cache coherence by code shape: every lru_cache'd TypeSystem method is cleared by _clear_query_caches and every writer of graph edges reaches "
+            "it; clear_generator_cache clears every memoised method of GeneratorProvider and its subclasses; update_return_type accompanies a generator move by clear_generator_cache() "
+            "and get_all_generatable_types.cache_clear(). Which generator is finally selected is not decided.",
+            "Trusts sa/engine/peval.py, the model graph, and the CFG builder.",
+            "DESIGN.md §3 C26",
+        ),
+    }
+)
+
 NOT_APPLICABLE: dict[str, str] = {
     "C06": "Correctness of the post-dominator/CDG construction on every code object is functional correctness of a graph "
     "algorithm; no shape of the code implies it and no sound static argument in reach bounds 'all code objects'.",
